@@ -14,7 +14,7 @@ pub struct C19;
 
 const ALLOWED: &[&str] = &[
     "rand", "heap_pad", "env_pad", "stack", "malloc_tun", "cwd_name", "rel", "file_name", "spelling", "argv0",
-    "env_kind", "locale", "rust_backtrace", "stdin", "stdout", "stderr", "merged", "decoys",
+    "env_kind", "locale", "rust_backtrace", "stdin", "stdout", "stderr", "merged", "decoys", "clock", "pid",
 ];
 
 pub fn pick_program(ctx: &Ctx, rng: &mut Rng) -> programs::Picked {
@@ -44,6 +44,7 @@ impl Property for C19 {
         vec![
             "seed reaches the kernel only through the interposed libc symbols (cross-checked: sink content == shim log on every run; strace comparison in selfcheck)".into(),
             "programs whose reference run crashes (exit 101/signal) are skipped: their stderr legitimately depends on RUST_BACKTRACE and they are C02's business".into(),
+            "the simulated clock (clock_gettime/gettimeofday/time) and getpid are owned by the shim and varied as world dimensions; environment variables and relative files the program is seen asking for (getenv / open events of the reference run) are set / created in directed follow-up worlds".into(),
             "ASLR is off in every run; layout is varied by deterministic padding (env size, heap pad, stack limit, malloc tunables)".into(),
         ]
     }
@@ -53,13 +54,28 @@ impl Property for C19 {
 
     fn gen_case(&self, ctx: &Ctx, worker: usize, rng: &mut Rng, _index: u64) -> Case {
         let p = pick_program(ctx, rng);
-        let world = World::random(rng, ALLOWED);
-        let plan = if rng.chance(1, 2) {
-            let reference = ctx.reference(worker, &p.program);
-            oracle::invisible_plan(rng, &reference)
-        } else {
-            Plan::new()
-        };
+        let mut world = World::random(rng, ALLOWED);
+        let reference = ctx.reference(worker, &p.program);
+        // directed worlds: whatever environment variable or relative file the
+        // program was seen asking for gets a value / gets created
+        if rng.chance(1, 2) {
+            for e in reference.events.iter().filter(|e| e.kind == 'E') {
+                let name = String::from_utf8_lossy(&e.data).to_string();
+                if !world.extra_env.iter().any(|(k, _)| *k == name) {
+                    let v = ["1", "0", "", "true", "/nonexistent", "xx_YY.UTF-8", "full"][rng.usize_below(7)];
+                    world.extra_env.push((name, v.to_string()));
+                }
+            }
+            for e in reference.events.iter().filter(|e| e.kind == 'o' || e.kind == 's') {
+                let path = String::from_utf8_lossy(&e.data).to_string();
+                let rel = path.strip_prefix(&format!("{}/", reference.cwd.display())).map(str::to_string).unwrap_or(path.clone());
+                if !rel.starts_with('/') && !world.extra_files.iter().any(|(k, _)| *k == rel) {
+                    let c = ["print(\"decoy\")\n", "", "{\"k\": 1}\n", "\u{0}\u{1}junk"][rng.usize_below(4)];
+                    world.extra_files.push((rel, c.to_string()));
+                }
+            }
+        }
+        let plan = if rng.chance(1, 2) { oracle::invisible_plan(rng, &reference) } else { Plan::new() };
         Case { label: p.label, program: p.program, aux: p.aux, world, plan }
     }
 
